@@ -309,9 +309,65 @@ type nativeStringer string
 
 func (s nativeStringer) String() string { return string(s) }
 
+// fmtVerbs returns the verb consuming each operand (simple formats only).
+func fmtVerbs(format string, n int) ([]byte, string, bool) {
+	verbs := make([]byte, 0, n)
+	out := []byte{}
+	for i := 0; i < len(format); i++ {
+		c := format[i]
+		out = append(out, c)
+		if c != '%' {
+			continue
+		}
+		j := i + 1
+		for j < len(format) && (format[j] == '+' || format[j] == '-' || format[j] == '#' || format[j] == ' ' || format[j] == '0' || format[j] == '.' || (format[j] >= '1' && format[j] <= '9')) {
+			j++
+		}
+		if j >= len(format) {
+			return nil, "", false
+		}
+		if format[j] == '*' || format[j] == '[' {
+			return nil, "", false
+		}
+		if format[j] == '%' {
+			out = append(out, format[i+1:j+1]...)
+			i = j
+			continue
+		}
+		v := format[j]
+		if v == 'T' {
+			out = append(out, format[i+1:j]...)
+			out = append(out, 's')
+		} else {
+			out = append(out, format[i+1:j+1]...)
+		}
+		verbs = append(verbs, v)
+		i = j
+	}
+	return verbs, string(out), true
+}
+
 func (in *Interp) sprintf(fr *frame, format string, args []value) (string, bool) {
 	nat := make([]interface{}, len(args))
+	var verbs []byte
+	if format != "\x00sprint" && format != "\x00sprintln" {
+		vs, f2, ok := fmtVerbs(format, len(args))
+		if !ok {
+			return "", false
+		}
+		verbs, format = vs, f2
+	}
 	for i, a := range args {
+		if i < len(verbs) && verbs[i] == 'T' {
+			if it, ok := a.(iface); ok {
+				if it.t == nil {
+					nat[i] = "<nil>"
+				} else {
+					nat[i] = types.TypeString(it.t, func(p *types.Package) string { return p.Name() })
+				}
+				continue
+			}
+		}
 		it, ok := a.(iface)
 		if !ok {
 			return "", false
@@ -413,4 +469,65 @@ func initSortExternals() {
 	externals["sort.Slice"] = ss
 	externals["sort.SliceStable"] = ss
 	_ = sort.Ints
+}
+
+// errors.Is without reflection: identity on comparable dynamic types, the
+// Is(error) bool hook, and Unwrap chains.
+func initErrorsExternals() {
+	externals["errors.Is"] = func(fr *frame, a []value) value {
+		in := fr.in
+		err, _ := a[0].(iface)
+		target, _ := a[1].(iface)
+		if err.t == nil || target.t == nil {
+			return in.tb.Bool(err.t == nil && target.t == nil)
+		}
+		return in.errorsIs(fr, err, target, 0)
+	}
+}
+
+var extraInits []func()
+
+func (in *Interp) errorsIs(fr *frame, err, target iface, depth int) T {
+	if depth > 20 {
+		unsupported("errors.Is: unwrap chain too deep")
+	}
+	for {
+		if sameType(err.t, target.t) && types.Comparable(err.t) {
+			eq := in.equals(err.t, err.v, target.v)
+			if in.decide(eq) {
+				return in.tb.True
+			}
+		}
+		if m := in.findMethod(err.t, "Is"); m != nil && m.Signature.Params().Len() == 1 && m.Signature.Results().Len() == 1 {
+			r := in.call(fr, token.NoPos, m, []value{err.v, target}).(T)
+			if in.decide(r) {
+				return in.tb.True
+			}
+		}
+		m := in.findMethod(err.t, "Unwrap")
+		if m == nil || m.Signature.Params().Len() != 0 || m.Signature.Results().Len() != 1 {
+			return in.tb.False
+		}
+		res := in.call(fr, token.NoPos, m, []value{err.v})
+		switch r := res.(type) {
+		case iface:
+			if r.t == nil {
+				return in.tb.False
+			}
+			err = r
+		case []value:
+			for _, e := range r {
+				ei := e.(iface)
+				if ei.t == nil {
+					continue
+				}
+				if in.decide(in.errorsIs(fr, ei, target, depth+1)) {
+					return in.tb.True
+				}
+			}
+			return in.tb.False
+		default:
+			return in.tb.False
+		}
+	}
 }
